@@ -620,6 +620,7 @@ def run(ctx):
 
 
 SELFTEST = [
+    ('flow-window-inclusive', 'pyerrors/input/openQCD.py', 'current + tmax - xmin])', 'current + tmax - xmin + 1])', 'C17-D4'),
     ('re-im-swapped', 'pyerrors/input/openQCD.py', '                        realsamples[repnum][t].append(corrres[0][t])', '                        realsamples[repnum][t].append(corrres[1][t])', 'C17-D4'),
     ('benign-re-im-strided', 'pyerrors/input/openQCD.py', '                    corrres = [[], []]\n                    for i in range(len(tmpcorr)):\n                        corrres[i % 2].append(tmpcorr[i])\n', '                    corrres = [tmpcorr[0::2], tmpcorr[1::2]]\n', 'BENIGN'),
     ('re-im-strided-off', 'pyerrors/input/openQCD.py', '                    corrres = [[], []]\n                    for i in range(len(tmpcorr)):\n                        corrres[i % 2].append(tmpcorr[i])\n', '                    corrres = [tmpcorr[0::2], tmpcorr[0::2]]\n', 'C17-D4'),
